@@ -26,3 +26,45 @@ Proof. exact Path_Lemmas.normalize_equiv_iff. Qed.
 
 Theorem normalize_idem : forall p, absolute p -> normalize (normalize p) = normalize p.
 Proof. exact Path_Lemmas.normalize_idem. Qed.
+
+(* ---- the import state machine (env/Import.v): value cache, import stack, static cycle check ---- *)
+From Ucg Require Import env.Import env.Import_Lemmas.
+
+(* building a file evaluates every file it reaches at most once *)
+Theorem each_file_evaluated_once : forall md fuel proj root,
+    List.NoDup (evaluations (fst (build_file md fuel proj empty_state root))).
+Proof. exact import_evaluates_once. Qed.
+
+(* two imports of the same file (any spellings, any moments of the build) see the same value *)
+Theorem every_importer_sees_same_value :
+  forall md proj fuel1 fuel2 stack1 stack2 st1 st2 p q st1' st2' stack1' stack2' v w,
+    cache_ok proj (val_cache st1) -> cache_ok proj (val_cache st2) ->
+    Path.normalize p = Path.normalize q ->
+    import md fuel1 proj stack1 st1 p = (st1', stack1', Ok v) ->
+    import md fuel2 proj stack2 st2 q = (st2', stack2', Ok w) -> v = w.
+Proof. exact import_same_value. Qed.
+
+(* the spelling of an import path does not matter *)
+Theorem import_spelling_irrelevant : forall md p q,
+    Path.absolute p -> Path.absolute q -> Path.resolve p = Path.resolve q ->
+    forall fuel proj stack st, import md fuel proj stack st p = import md fuel proj stack st q.
+Proof. exact spelling_irrelevant. Qed.
+
+(* a cycle through any spelling is reported as an error - nothing is evaluated, nothing written, no loop *)
+Theorem import_cycle_reported : forall md proj fuel st root,
+    shape_ok proj (shape_cache st) -> cyclic_from proj root -> List.length proj <= fuel ->
+    snd (build_file md fuel proj st root) = Err Cycle /\
+    evaluations (fst (build_file md fuel proj st root)) = evaluations st /\
+    artifacts (fst (build_file md fuel proj st root)) = artifacts st.
+Proof. exact import_cycle_is_error. Qed.
+
+(* the fuel of the model is never the reason for an outcome: builds terminate *)
+Theorem import_always_terminates : forall md proj fuel st root,
+    List.length proj <= fuel -> snd (build_file md fuel proj st root) <> Err OutOfFuel.
+Proof. exact import_terminates. Qed.
+
+(* and a project without cycles, missing or failing files builds, to the value the files denote *)
+Theorem acyclic_project_builds : forall md proj fuel root d,
+    good d proj root = true -> List.length proj <= fuel ->
+    exists v, snd (build_file md fuel proj empty_state root) = Ok v /\ value_of d proj root = Some v.
+Proof. exact acyclic_builds. Qed.
